@@ -19,7 +19,9 @@ var propIncludes = map[string][]inc{
 		{"C07", map[string]func(string) bool{"C07-R3": resumeArgs}},
 		{"C16", map[string]func(string) bool{"C16-R1": nil, "C16-R2": nil, "C16-R3": prefix("header@NextPosition"), "C16-R4": prefix("layout@Rotate", "endian@Rotate")}},
 	},
-	"C04": {{"C07", map[string]func(string) bool{"C07-R3": resumeArgs}}},
+	// a failure inside the parser (handler, table lookup, decode) must end the attempt: if it is swallowed the loop goes on
+	// and a later commit moves the kept position past a transaction that was never accepted (C06-R3, parser and commit)
+	"C04": {{"C07", map[string]func(string) bool{"C07-R3": resumeArgs}}, {"C06", map[string]func(string) bool{"C06-R3": prefix("errcheck@parseEvents")}}},
 	// a decode failure can be reported only if the decode is attempted: every format description is decoded (C16-R6)
 	"C06": {{"C16", rules("C16-R6")}},
 	"C08": {{"C02", rules("C02-R4")}},
